@@ -154,6 +154,11 @@ structure Spec (κ ν : Type) where
   bodyFn : κ → List ν → ν
   /-- a whole list used as one (broadcast) value -/
   listVal : List ν → ν
+  /-- the LABEL of the injected get-item node that reads cell `i` of looped input `k`. The loop looks
+  these nodes up by label (`self.children[k][i]`): cells whose labels coincide share ONE node — the
+  one created first. The library derives the label from a digest of (input label, index); the rows
+  hold their own cells exactly as far as this map is injective (`Valid.labels`) -/
+  itemLabel : κ → Nat → κ × Nat := Prod.mk
 
 inductive Child (κ : Type)
   | input (k : κ)            -- user-input node of a for-node input
@@ -237,6 +242,18 @@ def optAll {α : Type} : List (Option α) → Option (List α)
     | some l => some (a :: l)
     | none => none
 
+/-- every looped cell the index maps mention, in the order the build first touches it -/
+def cellsOf (maps : List (Dict κ)) : List (κ × Nat) := maps.flatten
+
+/-- no two different cells carry the same get-item label -/
+def labelsOk (s : Spec κ ν) (maps : List (Dict κ)) : Bool :=
+  (cellsOf maps).all fun c => (cellsOf maps).all fun c' =>
+    decide (s.itemLabel c.1 c.2 = s.itemLabel c'.1 c'.2 → c = c')
+
+/-- the cell whose get-item node a lookup for cell `c` returns: the first one created under that label -/
+def ownerOf (s : Spec κ ν) (maps : List (Dict κ)) (c : κ × Nat) : κ × Nat :=
+  ((cellsOf maps).find? fun c' => decide (s.itemLabel c'.1 c'.2 = s.itemLabel c.1 c.2)).getD c
+
 /-- output of the get-item node `input_k[i]` -/
 def itemVal (cur : Cur κ ν) (k : κ) (i : Nat) : Option ν :=
   match valOf cur k with
@@ -247,6 +264,11 @@ def itemVal (cur : Cur κ ν) (k : κ) (i : Nat) : Option ν :=
 `k, i in channel_map.items()` — label and the value the get-item node delivers -/
 def wires (cur : Cur κ ν) (m : Dict κ) : List (κ × Option ν) :=
   m.map fun kv => (kv.1, itemVal cur kv.1 kv.2)
+
+/-- the same when get-item nodes are shared between cells of one label: cell `(k, i)` reads what the
+node of the label's OWNER delivers -/
+def wiresA (s : Spec κ ν) (cur : Cur κ ν) (maps : List (Dict κ)) (m : Dict κ) : List (κ × Option ν) :=
+  m.map fun kv => (kv.1, itemVal cur (ownerOf s maps kv).1 (ownerOf s maps kv).2)
 
 /-- the looped-input cell of a row: connected only when the key is in the index map -/
 def loopedCell (w : List (κ × Option ν)) (k : κ) : Option ν :=
@@ -335,6 +357,22 @@ def evalOuts (s : Spec κ ν) (cur : Cur κ ν) (maps : List (Dict κ)) (order :
           (fun o => (s.colmap o,
             optAll ((enum 0 maps).map fun nm => bodyOutAt s cur order nm.1 (wires cur nm.2) o))))
 
+/-- `evalOuts` with shared get-item nodes (`wiresA`) -/
+def evalOutsA (s : Spec κ ν) (cur : Cur κ ν) (maps : List (Dict κ)) (order : List Nat) : Outs κ ν :=
+  if s.asDf then
+    .df (optAll ((enum 0 maps).map fun nm => rowAt s cur order nm.1 (wiresA s cur maps nm.2)))
+  else
+    .lists
+      ((loopedInputs s).map
+          (fun k => (k, optAll (maps.map fun m => loopedCell (wiresA s cur maps m) k)))
+        ++ s.outputs.map
+          (fun o => (s.colmap o,
+            optAll ((enum 0 maps).map fun nm => bodyOutAt s cur order nm.1 (wiresA s cur maps nm.2) o))))
+
+/-- the children of a build with shared get-item nodes: one item child per LABEL (named by its owner) -/
+def buildA (s : Spec κ ν) (maps : List (Dict κ)) (cs : List (Child κ)) : List (Child κ) :=
+  build s (maps.map fun m => m.map (ownerOf s maps)) cs
+
 def Outs.complete : Outs κ ν → Bool
   | .df t => t.isSome
   | .lists cols => cols.all (·.2.isSome)
@@ -386,6 +424,13 @@ def run (s : Spec κ ν) (st : St κ ν) (cur : Cur κ ν) (order : List Nat) : 
       if listsClash s then
         -- raised out of `_on_cache_miss` half-way through the build: nothing ran, nothing cached
         ({ st with children := buildClash s maps st.children, maps := maps }, .labelClash)
+      else
+      if !labelsOk s maps then
+        -- two cells share a get-item label: the second lookup returns the first one's node
+        let outs := evalOutsA s cur maps order
+        ({ children := buildA s maps st.children, outs,
+           cached := if s.useCache && (outs.complete || !s.clearOnFail) then some cur else none, maps := maps },
+         if outs.complete then .ok else .failedChild)
       else
       if s.startAbort && strandedCollector s maps then
         -- the stranded collector's `ReadinessError` aborts the run before the signal loop
@@ -567,6 +612,8 @@ def ColsDistinct (s : Spec κ ν) : Prop := (columns s).Nodup
 /-- layout + distinct column names -/
 structure Valid (s : Spec κ ν) : Prop extends Layout s where
   cols : ColsDistinct s
+  /-- different looped cells have different get-item labels -/
+  labels : ∀ k i k' i', s.itemLabel k i = s.itemLabel k' i' → k = k' ∧ i = i'
 
 /-- input values the property talks about: every input holds data, every looped input holds a
 non-empty list (the guard: the code refuses empty ones) -/
